@@ -1,6 +1,60 @@
-(* C15 - placeholder until Proofs/OutputFacts.v lands. *)
-From Coq Require Import List.
-From BB Require Import Base.Names.
-Theorem C15_placeholder : forall l, NoDup (uniquify l).
-Proof. exact uniquify_NoDup. Qed.
-Print Assumptions C15_placeholder.
+(* C15 - SEQX package mirrors the forged sequence and enforces AWG70000A limits.
+   Only statements; proofs in Proofs/OutputFacts.v (the pinned raise conditions are in Props/C14n.v). *)
+From Coq Require Import String List ZArith QArith Bool.
+From BB Require Import Base.Names Base.Num Base.PyList Model.Types Model.Blueprint Model.Forge Model.Element
+  Model.PyVal Model.Sequence Model.Output Proofs.OutputFacts.
+Import ListNotations.
+
+(* sequencing settings accepted exactly inside the AWG70000A ranges *)
+Theorem C15_sequencing_ranges : forall n q,
+  seqx_seq_ok n q = true <->
+  (0 <= twait q <= 3 /\ 0 <= jump_input q <= 3 /\ 0 <= nrep q <= 16383 /\ -1 <= jump_target q <= n /\ 0 <= goto q <= n)%Z.
+Proof. exact seqx_seq_ok_spec. Qed.
+
+(* what the package is, when one is returned: 8 entries (9 with flags); the five sequencing lists in position order,
+   the name, the amplitudes in channel order padded with one 0 for a single channel; the voltage guard is +-ampl/2 *)
+Theorem C15_package_shape : forall s fl ranges l,
+  output_seqx s fl = guarded ranges (PTuple l) ->
+  length l = (if fl then 9 else 8)%nat /\
+  nth_error l 7 = Some (PStr (sname s)) /\
+  (exists chans els ampls, prepare s = Ok (chans, els) /\ mapM (fun ch => spec_num s (key_amp ch) EKey) chans = Ok ampls /\
+     nth_error l 6 = Some (PList (match ampls with [a] => [PNum a; PInt 0] | _ => map PNum ampls end)) /\
+     (forall w lo hi, In (w, lo, hi) ranges -> exists a, In a ampls /\ lo = (- a / 2)%Q /\ hi = (a / 2)%Q) /\
+     exists sq, mapM (get_sq s) (range1 (length els)) = Ok sq /\
+       Forall (fun q => seqx_seq_ok (Z.of_nat (length els)) q = true) sq /\
+       nth_error l 0 = Some (PList (map (fun q => PInt (twait q)) sq)) /\
+       nth_error l 1 = Some (PList (map (fun q => PInt (nrep q)) sq)) /\
+       nth_error l 2 = Some (PList (map (fun q => PInt (jump_input q)) sq)) /\
+       nth_error l 3 = Some (PList (map (fun q => PInt (jump_target q)) sq)) /\
+       nth_error l 4 = Some (PList (map (fun q => PInt (goto q)) sq))).
+Proof. exact seqx_package_shape. Qed.
+
+(* fewer than 2400 points on any channel at any position: ValueError, no package *)
+Theorem C15_too_short : forall s fl chans els,
+  prepare s = Ok (chans, els) ->
+  (exists l c p n, In l els /\ In c chans /\ prep_find l c = Ok p /\ chout_len (pout p) = Ok n /\ (n < 2400)%Z) ->
+  (forall l c, In l els -> In c chans -> exists p n, prep_find l c = Ok p /\ chout_len (pout p) = Ok n) ->
+  (exists ampls, mapM (fun ch => spec_num s (key_amp ch) EKey) chans = Ok ampls) ->
+  output_seqx s fl = PErr EValue \/ exists e, output_seqx s fl = PErr e.
+Proof. exact seqx_too_short. Qed.
+
+(* flags: the stored integers, [0,0,0,0] where none were set; letter aliases were mapped when they were set *)
+Theorem C15_flag_aliases :
+  flag_int (VStr []) = Some 0%Z /\ flag_int (VStr (S_ "H")) = Some 1%Z /\ flag_int (VStr (S_ "L")) = Some 2%Z /\
+  flag_int (VStr (S_ "T")) = Some 3%Z /\ flag_int (VStr (S_ "P")) = Some 4%Z /\
+  (forall z, (0 <= z <= 4)%Z -> flag_int (VNum (inject_Z z)) = Some z) /\
+  (forall q, flag_int (VNum q) <> None -> exists z, (0 <= z <= 4)%Z /\ (q == inject_Z z)%Q).
+Proof. exact flag_aliases. Qed.
+
+Theorem C15_add_flags : forall e c fl,
+  (length fl <> 4%nat -> snd (el_add_flags e c fl) = Some EValue) /\
+  ((exists v, In v fl /\ flag_int v = None) -> snd (el_add_flags e c fl) = Some EValue) /\
+  (forall ints ch, length fl = 4%nat -> all_some (map flag_int fl) = Some ints -> el_lookup e c = Some ch ->
+     el_add_flags e c fl = (el_set e c (mkCh (ckind ch) (Some ints)), None)).
+Proof. exact add_flags_spec. Qed.
+
+Print Assumptions C15_sequencing_ranges.
+Print Assumptions C15_package_shape.
+Print Assumptions C15_too_short.
+Print Assumptions C15_flag_aliases.
+Print Assumptions C15_add_flags.
